@@ -30,7 +30,7 @@ const c03Consts = "const KV = 10\nconst KW = 7\n"
 
 const (
 	c03Bodies     = 9
-	c03BodiesLoop = 10
+	c03BodiesLoop = 11
 	c03Contexts   = 8
 )
 
@@ -61,6 +61,8 @@ func c03Body(b, i int, pre *[]model.Stmt) []model.Stmt {
 		return []model.Stmt{{Kind: model.SLabel, Name: l}, mcmd(c)}
 	case 8:
 		return []model.Stmt{mcmd(c), {Kind: model.SEnd}}
+	case 10: // the body ends in a hand-written conditional jump (when the flag is unset the body ends like any other)
+		return []model.Stmt{mcmd(c), {Kind: model.SGotoIf, Name: "EXT", Flag: fmt.Sprintf("J%d", i), WantSet: true}}
 	default: // 9: only in loop contexts
 		return []model.Stmt{{Kind: model.SIf, Arms: []model.Arm{{Cond: mflag(fmt.Sprintf("F%d", i)), Body: []model.Stmt{{Kind: model.SContinue}}}}}, mcmd(c)}
 	}
@@ -383,7 +385,7 @@ func runC03(tier string) int {
 	r.Assume("reference switch rule: a body-less entry shares the next entry that has a body; trailing body-less entries go to the statement after the switch; default runs iff no case value matches; bodies never fall through; break leaves the switch",
 		"var domain = every case value, its neighbours and 0 (always contains a non-matching value)")
 	return r.Finish(r.Get("evaluations"), r.Get("nontrivial"),
-		"every case list of length n (default at any position or absent) x every assignment of bodies from a 10-body alphabet (empty, cmd, cmd+break, break+dead tail, if-break, while-with-break, nested switch, labelled body with goto into it, cmd+end, if-continue in loops; reduced alphabet at n>=5) x 8 contexts (alone, first/middle/last, in while, in do-while, in another switch, in infinite while, with case values written as constant expressions) x optimize on/off, each also written on a single source line and compiled with line markers (explored again whenever the marker-stripped output differs); plus every case list of length <= 2 (thorough 3) as the statement of a poryswitch case (4 forms) with a var and with AutoVar command operands; plus switches with K cases and switches nested K deep for every K up to the scale bounds; non-trivial = >= 2 entries and >= 3 distinct observable events")
+		"every case list of length n (default at any position or absent) x every assignment of bodies from an 11-body alphabet (a body ending in a hand-written goto_if_set, empty, cmd, cmd+break, break+dead tail, if-break, while-with-break, nested switch, labelled body with goto into it, cmd+end, if-continue in loops; reduced alphabet at n>=5) x 8 contexts (alone, first/middle/last, in while, in do-while, in another switch, in infinite while, with case values written as constant expressions) x optimize on/off, each also written on a single source line and compiled with line markers (explored again whenever the marker-stripped output differs); plus every case list of length <= 2 (thorough 3) as the statement of a poryswitch case (4 forms) with a var and with AutoVar command operands; plus switches with K cases and switches nested K deep for every K up to the scale bounds; non-trivial = >= 2 entries and >= 3 distinct observable events")
 }
 
 // oneLine rewrites a generated source so that every statement sits on one line
